@@ -307,6 +307,18 @@ class G(PaneBase, t.Generic[T]):
     k: int = 0
 
 
+class GA(G[int]):
+    pass
+
+
+class GB(G[int]):
+    pass
+
+
+class GC(G[int]):
+    extra: int = 0
+
+
 @obligation(pre="True", witnesses=(0, -1), timeout=120)
 def body_generic_eq(v1: int, k1: int, v2: int, k2: int) -> int:
     """equality ignores generic parameters: G[int](..) == G(..) == G[Any](..) when the fields are equal"""
@@ -315,6 +327,17 @@ def body_generic_eq(v1: int, k1: int, v2: int, k2: int) -> int:
     c = G[t.Any](v2, k2)
     same = (v1 == v2 and k1 == k2)
     if (a == b) != same or (b == a) != same or (a == c) != same or (c == b) is not True:
+        return 1
+    # concrete subclasses of a parameterised generic are classes of their own
+    ga, gb, gc = GA(v1, k1), GB(v1, k1), GC(v1, k1)
+    try:
+        if ga == gb or gb == ga or ga == a or a == ga or ga == gc or gc == ga:
+            return 1
+        if not (ga == GA(v1, k1)) or (ga == GA(v2, k2)) != same:
+            return 1
+    except Exception as e:
+        if crosshair_exc(e):
+            raise
         return 1
     return 0 if same else -1
 
